@@ -10,7 +10,12 @@ from core.pool import pmap
 from core.runner import viol
 
 D = fm.adapters
-WORK = os.path.join(VERIF, "work", "C10")
+# one scratch directory per run (process id of the process that imports this module; forked workers inherit it): two runs of this check at the
+# same time - e.g. one against /repo and one against a scratch tree - must not see or remove each other's files
+WORK = os.path.join(VERIF, "work", "C10-%d" % os.getpid())
+import atexit  # noqa: E402
+
+atexit.register(lambda: shutil.rmtree(WORK, ignore_errors=True) if os.path.isdir(WORK) and os.getpid() == int(WORK.rsplit("-", 1)[1]) else None)
 
 KINDS = ["direct", "Next", "Previous", "Linear", "Step", "Avg", "AvgStep", "Sum", "SumAbs", "SumLin"]
 # the same buffering adapters followed by a fixed delay (requests are clamped to the start time at first: the adapter is asked for its
